@@ -1,33 +1,36 @@
 (* C12, grammar agreement on a fragment, as a theorem:
-     on every input over the fragment alphabet (FragParser.frag_char), in both modes and from every validator
+     on every input whose units lie in the fragment (FragParser.in_fragment), in both modes and from every validator
      state, the validator model accepts  <->  the input is a Pattern of the ECMAScript grammar (Grammar.v).
    The units the grammar speaks about are the ones the validator reads: code points with u, UTF-16 code units
-   without (Reader.visible_units).
+   without (Reader.visible_units); for a string of BMP characters they are the string itself.
    Route: validator = recogniser sp_pattern (FragSim.v, symbolic execution of the model on fragment inputs),
           sp_pattern <-> Pattern (FragGrammar.v, soundness by induction on the fuel, completeness by induction on the
           derivation with follow-set conditions).
-   NOT covered: everything outside the fragment (see Grammar.v header): escapes, classes, braced quantifiers,
-   anchors, look-arounds, named groups, back-references, the early errors attached to them. *)
+   NOT covered: everything outside the fragment (see Grammar.v header): escapes (incl. \b \B), classes, braced
+   quantifiers, named groups, back-references, and the early errors attached to them. *)
 From Coq Require Import List NArith Bool.
 From V Require Import Common.Str Regex.Reader Regex.Validator Regex.ValidatorReset Regex.ValidatorTotal
   Regex.Grammar Regex.FragParser Regex.FragGrammar Regex.FragSim.
 Import ListNotations.
 Open Scope N_scope.
 
-Theorem fragment_equiv : forall st s u, in_fragment s = true ->
+Lemma in_fragment_chars_ok l : in_fragment l = true -> chars_ok l = true.
+Proof. unfold in_fragment. intros H. apply andb_true_iff in H. apply H. Qed.
+
+Theorem fragment_equiv : forall st s u, in_fragment (visible_units s u) = true ->
   (verdict_of (validate_pattern st s u) = VOk <-> Pattern u (visible_units s u)).
 Proof.
   intros st s u Hf. pose proof (validate_pattern_sim st s u Hf) as Hsim.
-  pose proof (in_fragment_visible s u Hf) as Hfv. split.
+  pose proof (in_fragment_chars_ok _ Hf) as Hc. split.
   - intros Hok. destruct (validate_pattern st s u) as [a t|m t|p|]; try discriminate.
-    destruct (sp_pattern (visible_units s u)) as [a' l'| |] eqn:E; try contradiction.
+    destruct (sp_pattern u (visible_units s u)) as [a' l'| |] eqn:E; try contradiction.
     exact (sp_pattern_sound u _ a' l' E).
-  - intros Hp. rewrite (sp_pattern_complete u _ Hp Hfv) in Hsim.
+  - intros Hp. rewrite (sp_pattern_complete u _ Hp Hc) in Hsim.
     destruct (validate_pattern st s u) as [a t|m t|p|]; try contradiction. reflexivity.
 Qed.
 
 (* on the fragment a rejected input is rejected with a SyntaxErr (never a panic / fuel exhaustion) *)
-Corollary fragment_reject : forall st s u, in_fragment s = true -> ~ Pattern u (visible_units s u) ->
+Corollary fragment_reject : forall st s u, in_fragment (visible_units s u) = true -> ~ Pattern u (visible_units s u) ->
   exists m, verdict_of (validate_pattern st s u) = VErr m.
 Proof.
   intros st s u Hf Hn. destruct (validate_pattern st s u) as [a t|m t|p|] eqn:E.
@@ -37,29 +40,47 @@ Proof.
   - exfalso. exact (validator_fuel_sufficient st s u E).
 Qed.
 
+(* with the u flag the units are the code points themselves *)
+Corollary fragment_equiv_u : forall st s, in_fragment s = true ->
+  (verdict_of (validate_pattern st s true) = VOk <-> Pattern true s).
+Proof. intros st s Hf. exact (fragment_equiv st s true Hf). Qed.
+
 (* ---- non-vacuity ---- *)
-(* the pattern  ( a | b STAR ) PLUS ? c (?: d | ) ?   i.e. the 16 units below *)
-Definition ex_valid : list N := [40;97;124;98;42;41;43;63;99;40;63;58;100;124;41;63].
-Example ex_valid_in_fragment : in_fragment ex_valid = true. Proof. reflexivity. Qed.
+Lemma decide_pattern u l : chars_ok l = true -> recognises u l = true -> Pattern u l.
+Proof. intros Hc Hr. apply (recognises_iff_Pattern u l Hc). exact Hr. Qed.
+Lemma decide_not_pattern u l : chars_ok l = true -> recognises u l = false -> ~ Pattern u l.
+Proof. intros Hc Hr Hp. apply (recognises_iff_Pattern u l Hc) in Hp. congruence. Qed.
+
+(* the 31 units of   ^ ( a | b STAR ) PLUS ? ( ? < = c ) ( ? ! d ) ( ? : e | ) ? $   -- anchors, nested alternation,
+   lazy quantifier, look-behind, negative look-ahead, non-capturing group: a Pattern in both modes *)
+Definition ex_valid : list N :=
+  [94; 40;97;124;98;42;41; 43;63; 40;63;60;61;99;41; 40;63;33;100;41; 40;63;58;101;124;41; 63; 36].
+Example ex_valid_ok : in_fragment ex_valid = true. Proof. reflexivity. Qed.
+Example ex_valid_pattern : forall u, Pattern u ex_valid.
+Proof. intros u. apply decide_pattern; destruct u; reflexivity. Qed.
 Example ex_valid_accepted : forall st u, verdict_of (validate_pattern st ex_valid u) = VOk.
-Proof. intros st u. apply fragment_equiv; [reflexivity|]. apply (recognises_iff_Pattern u); destruct u; reflexivity. Qed.
-Example ex_valid_is_pattern : forall u, Pattern u ex_valid.
-Proof. intros u. apply (recognises_iff_Pattern u); reflexivity. Qed.
-Example ex_valid_computed : verdict_of (validate_pattern init_vst ex_valid true) = VOk /\
-                            verdict_of (validate_pattern init_vst ex_valid false) = VOk.
-Proof. split; vm_compute; reflexivity. Qed.
-(* `a` STAR STAR and a lone `(` are not Patterns, and are rejected *)
-Example ex_invalid_star : forall st u, ~ Pattern u [97;42;42] /\ verdict_of (validate_pattern st [97;42;42] u) <> VOk.
+Proof. intros st u. apply fragment_equiv; [destruct u; reflexivity|]. destruct u; apply ex_valid_pattern. Qed.
+
+(* Annex B: a quantified look-ahead  ( ? = a ) STAR b  is a Pattern without u only *)
+Definition ex_annexb : list N := [40;63;61;97;41;42;98].
+Example ex_annexb_modes : Pattern false ex_annexb /\ ~ Pattern true ex_annexb.
+Proof. split; [apply decide_pattern|apply decide_not_pattern]; reflexivity. Qed.
+Example ex_annexb_validator : forall st,
+  verdict_of (validate_pattern st ex_annexb false) = VOk /\ verdict_of (validate_pattern st ex_annexb true) <> VOk.
 Proof.
-  intros st u. assert (Hn : ~ Pattern u [97;42;42]).
-  { intros Hp. apply (recognises_iff_Pattern u) in Hp; [discriminate|reflexivity]. }
-  split; [exact Hn|]. intros Hok. apply Hn. apply (fragment_equiv st [97;42;42] u eq_refl) in Hok. destruct u; exact Hok.
+  intros st. split.
+  - apply (fragment_equiv st ex_annexb false eq_refl). apply ex_annexb_modes.
+  - intros H. apply (fragment_equiv st ex_annexb true eq_refl) in H. exact (proj2 ex_annexb_modes H).
 Qed.
-Example ex_invalid_paren : forall st u, ~ Pattern u [40] /\ verdict_of (validate_pattern st [40] u) <> VOk.
+
+(* `a` STAR STAR, a lone `(`, a quantified anchor `^` STAR and a quantified look-behind are not Patterns (either mode) *)
+Example ex_invalid : forall st u l, In l [[97;42;42]; [40]; [94;42]; [40;63;60;61;97;41;42]] ->
+  ~ Pattern u (visible_units l u) /\ verdict_of (validate_pattern st l u) <> VOk.
 Proof.
-  intros st u. assert (Hn : ~ Pattern u [40]).
-  { intros Hp. apply (recognises_iff_Pattern u) in Hp; [discriminate|reflexivity]. }
-  split; [exact Hn|]. intros Hok. apply Hn. apply (fragment_equiv st [40] u eq_refl) in Hok. destruct u; exact Hok.
+  intros st u l Hin.
+  assert (Hn : ~ Pattern u (visible_units l u) /\ in_fragment (visible_units l u) = true).
+  { cbn [In] in Hin. repeat (destruct Hin as [<-|Hin]; [split; [apply decide_not_pattern|]; destruct u; reflexivity|]). contradiction. }
+  destruct Hn as [Hn Hf]. split; [exact Hn|]. intros Hok. apply Hn. apply (fragment_equiv st l u Hf). exact Hok.
 Qed.
 
 Print Assumptions fragment_equiv.
